@@ -48,6 +48,18 @@ def gen_sample_case(r, emax=6, Ds=(1, 2, 3, 4, 5, 6), massless_share=0.3, stabil
     return c
 
 
+def cornerize(r, c, exps=(3, 6, 9, 12)):
+    """move one or two of the xi coordinates (odd positions of the first 2E-2) of a case to 10^-k: hierarchical Feynman
+    parameters, tiny kappas, condition numbers of L up to ~1e12"""
+    E = len(c["edges"])
+    idx = [i for i in range(1, 2 * E - 2, 2)]
+    if not idx:
+        return c
+    for i in ([r.choice(idx)] if r.chance(0.6) else [r.choice(idx), r.choice(idx)]):
+        c["point"][i] = f2b(10.0 ** -r.choice(list(exps)))
+    return c
+
+
 def coq_sig(sig):
     return coq_list([coq_list([coq_Z(x) for x in row]) for row in sig])
 
